@@ -108,7 +108,11 @@ func cmdFn(args []string) {
 			fmt.Fprintln(os.Stderr, "no contract", k)
 			os.Exit(2)
 		}
+		tv := time.Now()
 		fr := eng.verifyFunction(p, k, ct)
+		if d := time.Since(tv).Seconds(); d > 1 {
+			fmt.Printf("  (VC generation for %s took %.1fs)\n", k, d)
+		}
 		if fr.Unsupported != "" {
 			fmt.Printf("UNSUPPORTED %s: %s\n", fr.Key, fr.Unsupported)
 		}
